@@ -145,7 +145,7 @@ def check(run):
         n = r.choice([0, 1, 2, 3, 4, 6, 9, 14]) if i not in (7, 8) else 60
         mask = [r.random() < (0.25 if i % 2 else 0.0) for _ in range(n)]
         fl = r.random() < 0.6
-        specs.append(build(r, "R%d" % i, n, mask, fieldless=fl, generics=None if fl else r.choice([None, "T", "N", "TU"])))
+        specs.append(build(r, "R%d" % i, n, mask, fieldless=fl, generics=None if fl else r.choice([None, "T", "N", "TU", "NT", "Tnd", "Tw"])))
     # variants whose canonical names coincide (legal without EnumString): one entry per variant must remain
     for di, (vs, style) in enumerate(DUP_SHAPES):
         for pref in (None, "p:"):
